@@ -580,12 +580,23 @@ def _key(rng):
             return (n, nm, ri, re_)
 
 
+def _mid_delim(rng, s, maxlen=None):
+    """Put `$$$$` inside a string, never at its start (legal: only a line *starting* with it ends a record)."""
+    if not s:
+        return s
+    i = rng.randint(1, len(s))
+    t = s[:i] + "$$$$" + s[i:]
+    return t if maxlen is None or len(t) <= maxlen else s
+
+
 def _value_lines(rng):
     k = rng.choice([1, 1, 1, 2, 3, 5])
     out = []
     for _ in range(k):
         while True:
             s = "".join(rng.choice(TEXT) for _ in range(rng.randint(1, 24))).strip(" ")
+            if s and rng.random() < 0.12:
+                s = _mid_delim(rng, s)
             if s and not s.startswith(">") and not s.startswith("$$$$"):
                 out.append(s)
                 break
@@ -642,6 +653,9 @@ def _header(rng):
         h = {"mol_name": _field(rng, rng.choice([5, 20, 80])), "initials": _field(rng, 2), "program": _field(rng, 8),
              "time": t, "dimensions": _field(rng, 2), "scaling_factors": _field(rng, 12), "energy": _field(rng, 12),
              "registry_number": _field(rng, 6), "comments": _field(rng, 40)}
+        if rng.random() < 0.15:
+            f = rng.choice(["mol_name", "comments", "program", "scaling_factors", "energy"])
+            h[f] = _mid_delim(rng, h[f], {"program": 8, "scaling_factors": 12, "energy": 12, "mol_name": 80}.get(f))
         l1 = f"{h['initials']:>2}{h['program']:>8}"
         if not (h["mol_name"].startswith("$$$$") or h["comments"].startswith("$$$$") or l1.startswith("$$$$")):
             return h
@@ -687,6 +701,68 @@ def _sdf_case(rng, n_rec):
         lines += _md_lines_ref(r["md"])
         lines.append("$$$$")
     return {"kind": "sdf", "ops": ["\t".join(["SS"] + lines), "\t".join(["SF"] + lines)], "records": recs}
+
+
+def _small_mol(rng, n=None):
+    n = n or rng.choice([1, 2, 3, 6])
+    mol = _mol(rng, n, rng.randint(0, n + 1))
+    mol["coords"] = [[_f32(round(rng.uniform(-50, 50), 3)) for _ in range(3)] for _ in range(n)]
+    return mol
+
+
+def _fresh_name(rng, used):
+    while True:
+        nm = _name(rng, 8) if rng.random() < 0.7 else _field(rng, 20, allow_empty=False)
+        if nm not in used and not nm.startswith("$$$$"):
+            return nm
+
+
+def _sdf_edit_case(rng):
+    """A parsed multi-record file followed by an edit history (SDFile as a mutable mapping of lazily parsed records)."""
+    recs = []
+    used = set()
+    for _ in range(rng.choice([1, 2, 3, 4])):
+        h = _header(rng)
+        h["mol_name"] = _fresh_name(rng, used)
+        used.add(h["mol_name"])
+        recs.append({"header": h, "mol": _small_mol(rng), "md": _metadata(rng, rng.choice([0, 1, 2])), "ver": rng.choice([None, "V3000"])})
+    names = [r["header"]["mol_name"] for r in recs]
+    ops = []
+    for _ in range(rng.randint(1, 6)):
+        kind = rng.choice(["rename", "rename", "del", "hdr", "hdr", "md_set", "md_del", "mol", "insert"])
+        if not names and kind != "insert":
+            kind = "insert"
+        if kind == "rename":
+            old = rng.choice(names)
+            new = _fresh_name(rng, used)
+            used.add(new)
+            names.remove(old)
+            names.append(new)
+            ops.append(["rename", old, new])
+        elif kind == "del":
+            nm = rng.choice(names)
+            names.remove(nm)
+            ops.append(["del", nm])
+        elif kind == "hdr":
+            f = rng.choice(["comments", "program", "initials", "energy", "registry_number", "dimensions", "scaling_factors"])
+            w = {"comments": 30, "program": 8, "initials": 2, "energy": 12, "registry_number": 6, "dimensions": 2, "scaling_factors": 12}[f]
+            val = _field(rng, w)
+            if val.startswith("$$$$"):
+                val = "x"
+            ops.append(["hdr", rng.choice(names), f, val])
+        elif kind == "md_set":
+            ops.append(["md_set", rng.choice(names), list(_key(rng)), _value_lines(rng)])
+        elif kind == "md_del":
+            ops.append(["md_del", rng.choice(names)])          # deletes the first key, if any
+        elif kind == "mol":
+            ops.append(["mol", rng.choice(names), _small_mol(rng), rng.choice([None, "V2000", "V3000"])])
+        else:
+            h = _header(rng)
+            nm = _fresh_name(rng, used)
+            used.add(nm)
+            names.append(nm)
+            ops.append(["insert", nm, {"header": h, "mol": _small_mol(rng), "md": _metadata(rng, rng.choice([0, 1])), "ver": None}])
+    return {"kind": "sdf-edit", "records": recs, "edits": ops}
 
 
 def cases(rng, tier):
@@ -774,6 +850,8 @@ def cases(rng, tier):
     # --- SD files
     for _ in range(14 * scale):
         out.append(_sdf_case(rng, rng.choice([1, 2, 3, 5])))
+    for _ in range(30 * scale):
+        out.append(_sdf_edit_case(rng))
     # --- MOL files and the RDKit bridge: oracle only
     for _ in range(12 * scale):
         n = rng.choice([1, 2, 5, 12])
@@ -793,6 +871,11 @@ def cases(rng, tier):
     for _ in range(4 * scale):
         nm = _name(rng, 5) + rng.choice(["\n", "\n", " ", "\t", "\r", ">", "\n\n"])
         out.append({"kind": "key-name", "key": [rng.choice([None, 2]), nm, None, None]})
+    for _ in range(10 * scale):
+        mol = _aromatic_mol(rng)
+        depth = rng.choice([0, 2])
+        out.append({"kind": "rdkit", "mol": mol, "depth": depth, "dative": False, "aromatic_ring": True,
+                    "extra_models": [[[c + 1.25 for c in xyz] for xyz in mol["coords"]] for _ in range(max(depth - 1, 0))]})
     # oracle-only corners outside the ASCII model
     for _ in range(6 * scale):
         mol = _mol(rng, 3, 2)
@@ -1171,6 +1254,88 @@ def _oracle_sdf(case):
     return v
 
 
+def _record_text_lines(r, rng=None):
+    import random
+    lines = _header_lines_ref(r["header"])
+    lines += _ref_v2000(r["mol"], {}) if r["ver"] != "V3000" else _ref_v3000(r["mol"], {}, rng or random.Random(0))
+    lines += _md_lines_ref(r["md"])
+    return lines + ["$$$$"]
+
+
+def _oracle_sdf_edit(case):
+    """Edit history on a *parsed* SDFile against a plain list of (name, record) — then write -> read."""
+    import copy
+    from biotite.structure.io.mol import Metadata, SDFile, SDRecord
+    ref = [[r["header"]["mol_name"], copy.deepcopy(r)] for r in case["records"]]
+    text = _text([l for r in case["records"] for l in _record_text_lines(r)])
+    v = []
+    with warnings.catch_warnings():
+        warnings.simplefilter("ignore")
+        try:
+            f = SDFile.read(io.StringIO(text))
+            for op in case["edits"]:
+                if op[0] == "rename":
+                    f[op[2]] = f[op[1]]
+                    del f[op[1]]
+                    i = next(k for k, (n, _) in enumerate(ref) if n == op[1])
+                    rec = ref.pop(i)[1]
+                    rec["header"]["mol_name"] = op[2]
+                    ref.append([op[2], rec])
+                elif op[0] == "del":
+                    del f[op[1]]
+                    ref = [x for x in ref if x[0] != op[1]]
+                elif op[0] == "hdr":
+                    setattr(f[op[1]].header, op[2], op[3])
+                    next(r for n, r in ref if n == op[1])["header"][op[2]] = op[3]
+                elif op[0] == "md_set":
+                    key = _key_of(Metadata.Key, tuple(op[2]))
+                    f[op[1]].metadata[key] = "\n".join(op[3])
+                    md = next(r for n, r in ref if n == op[1])["md"]
+                    hit = [e for e in md if tuple(e[0]) == tuple(op[2])]
+                    if hit:
+                        hit[0][1] = list(op[3])
+                    else:
+                        md.append([list(op[2]), list(op[3])])
+                elif op[0] == "md_del":
+                    md = next(r for n, r in ref if n == op[1])["md"]
+                    if md:
+                        del f[op[1]].metadata[_key_of(Metadata.Key, tuple(md[0][0]))]
+                        md.pop(0)
+                elif op[0] == "mol":
+                    f[op[1]].set_structure(_mk_atoms(op[2]), version=op[3])
+                    next(r for n, r in ref if n == op[1])["mol"] = op[2]
+                elif op[0] == "insert":
+                    r = op[2]
+                    rec = SDRecord(header=_mk_header(r["header"]))
+                    rec.set_structure(_mk_atoms(r["mol"]), version=r["ver"])
+                    rec.metadata = Metadata({_key_of(Metadata.Key, tuple(k)): "\n".join(val) for k, val in r["md"]})
+                    f[op[1]] = rec
+                    r2 = copy.deepcopy(r)
+                    r2["header"]["mol_name"] = op[1]
+                    ref.append([op[1], r2])
+            if list(f.keys()) != [n for n, _ in ref]:
+                return [("C18/sdf-edit/keys-before-write", f"{[n for n, _ in ref]} but the file has {list(f.keys())}")]
+            buf = io.StringIO()
+            f.write(buf)
+            buf.seek(0)
+            back = SDFile.read(buf)
+            names = list(back.keys())
+            if names != [n for n, _ in ref]:
+                return [("C18/sdf-edit/record-names", f"after {[o[:2] for o in case['edits']]}: expected {[n for n, _ in ref]}, read {names}")]
+            for n, r in ref:
+                rec = back[n]
+                h0 = _mk_header(r["header"])
+                if rec.header != h0:
+                    v.append(("C18/sdf-edit/header", f"record {n!r}: {h0} read as {rec.header}"))
+                want = [(_key_of(Metadata.Key, tuple(k)), "\n".join(val)) for k, val in r["md"]]
+                if list(rec.metadata.items()) != want:
+                    v.append(("C18/sdf-edit/metadata", f"record {n!r}: {want[:2]} read as {list(rec.metadata.items())[:2]}"))
+                v += _compare(r["mol"], rec.get_structure(), 0, CTAB_EXPRESSIBLE, "C18/sdf-edit/structure")
+        except Exception as e:  # noqa: BLE001
+            v.append(("C18/sdf-edit/raises/" + type(e).__name__, f"{e} after {[o[:2] for o in case['edits']]}"))
+    return v[:3]
+
+
 def _oracle_molfile(case):
     from biotite.structure.io.mol import MOLFile
     f = MOLFile()
@@ -1195,6 +1360,59 @@ def _oracle_molfile(case):
     return v
 
 
+def _aromatic_mol(rng):
+    """A kekulisable aromatic six-ring (benzene / pyridine / pyrimidine-like) with explicit hydrogens and,
+    sometimes, a substituent; bond types AROMATIC_SINGLE/DOUBLE alternate (or generic AROMATIC)."""
+    ring = ["C"] * 6
+    for i in rng.sample(range(6), rng.choice([0, 0, 1, 2])):
+        ring[i] = "N"
+    if ring.count("N") == 2 and any(ring[i] == "N" and ring[(i + 1) % 6] == "N" for i in range(6)):
+        ring = ["C", "N", "C", "N", "C", "C"]
+    elems = list(ring)
+    generic = rng.random() < 0.25
+    start = rng.choice([0, 1])
+    bonds = []
+    for i in range(6):
+        t = 9 if generic else (6 if (i + start) % 2 == 0 else 5)
+        a, b = i, (i + 1) % 6
+        bonds.append([min(a, b), max(a, b), t])
+    coords = [[_f32(1.39 * math.cos(i * math.pi / 3)), _f32(1.39 * math.sin(i * math.pi / 3)), 0.0] for i in range(6)]
+    for i in range(6):
+        if ring[i] == "C":
+            sub = rng.choice(["H", "H", "H", "F", "CL"])
+            elems.append(sub)
+            bonds.append([i, len(elems) - 1, 1])
+            coords.append([_f32(2.48 * math.cos(i * math.pi / 3)), _f32(2.48 * math.sin(i * math.pi / 3)), _f32(rng.choice([0.0, 0.5]))])
+    if "H" not in elems:
+        elems.append("H")
+        coords.append([9.0, 9.0, 9.0])
+    if rng.random() < 0.5:
+        rng.shuffle(bonds)
+    return {"elems": elems, "charges": [0] * len(elems), "coords": coords, "bonds": bonds}
+
+
+class BlockLogsCtx:
+    def __enter__(self):
+        from rdkit.rdBase import BlockLogs
+        self._b = BlockLogs()
+
+    def __exit__(self, *a):
+        del self._b
+        return False
+
+
+def _rd_snapshot(rd):
+    from rdkit import Chem
+    try:
+        with BlockLogsCtx():
+            block = Chem.MolToMolBlock(Chem.Mol(rd), kekulize=False)
+    except Exception:  # noqa: BLE001   (unsanitised molecules with exotic valences cannot always be written)
+        block = None
+    return ([(b.GetBeginAtomIdx(), b.GetEndAtomIdx(), str(b.GetBondType()), b.GetIsAromatic()) for b in rd.GetBonds()],
+            [(a.GetSymbol(), a.GetFormalCharge(), a.GetIsAromatic()) for a in rd.GetAtoms()],
+            [c.GetPositions().tolist() for c in rd.GetConformers()], block)
+
+
 def _oracle_rdkit(case):
     import numpy as np
     import biotite.structure as struc
@@ -1214,10 +1432,26 @@ def _oracle_rdkit(case):
     with warnings.catch_warnings():
         warnings.simplefilter("ignore")
         try:
+            before = (obj.coord.copy(), obj.element.copy(), obj.charge.copy(), obj.bonds.as_array().copy())
             rd = br.to_mol(obj, use_dative_bonds=case.get("dative", False))
+            after = (obj.coord, obj.element, obj.charge, obj.bonds.as_array())
+            if not all(np.array_equal(a, b) for a, b in zip(before, after)):
+                v.append(("C18/rdkit/to_mol-changes-its-argument", "the AtomArray passed to to_mol was modified"))
+            snap0 = _rd_snapshot(rd)
             back = br.from_mol(rd, add_hydrogen=None if has_h else False)
+            snap1 = _rd_snapshot(rd)
+            if snap0 != snap1:
+                k = next(i for i in range(4) if snap0[i] != snap1[i])
+                v.append(("C18/rdkit/from_mol-changes-its-argument",
+                          f"the Mol passed to from_mol was modified ({['bonds', 'atoms', 'conformers', 'molblock'][k]}): "
+                          f"{[x for x, y in zip(snap0[0], snap1[0]) if x != y][:2]}"))
+            again = br.from_mol(rd, add_hydrogen=None if has_h else False)
+            if not (np.array_equal(again.bonds.as_array(), back.bonds.as_array()) and np.array_equal(again.coord, back.coord)
+                    and np.array_equal(again.element, back.element) and np.array_equal(again.charge, back.charge)):
+                v.append(("C18/rdkit/second-from_mol-differs", "from_mol of the same Mol gives a different molecule the second time: "
+                          f"{again.bonds.as_array().tolist()[:3]} vs {back.bonds.as_array().tolist()[:3]}"))
         except Exception as e:  # noqa: BLE001
-            return [("C18/rdkit/raises/" + type(e).__name__, f"{e}")]
+            return v + [("C18/rdkit/raises/" + type(e).__name__, f"{e}")]
     if not isinstance(back, struc.AtomArrayStack) or back.stack_depth() != len(models if depth >= 1 else [0]):
         return [("C18/rdkit/models", f"{len(models) if depth >= 1 else 1} model(s) became {getattr(back, 'stack_depth', lambda: '?')()} ")]
     if back.array_length() != n:
@@ -1263,6 +1497,8 @@ def oracle(case):
         return _oracle_header(case["header"], case["long_field"])
     if k == "sdf":
         return _oracle_sdf(case)
+    if k == "sdf-edit":
+        return _oracle_sdf_edit(case)
     if k == "molfile":
         return _oracle_molfile(case)
     if k == "rdkit":
@@ -1281,6 +1517,8 @@ def nontrivial(case, impl_out):
         return len(m["elems"]) >= 2 or bool(m["bonds"]) or any(m["charges"])
     if k == "sdf":
         return len(case["records"]) >= 2
+    if k == "sdf-edit":
+        return True
     if "key" in case:
         return sum(x is not None for x in case["key"]) >= 2
     if "md" in case:
